@@ -3,6 +3,10 @@ CONSTANTS
   Ds = {1, 2}
   MaxClock = 1000
   W0 = 5
+  W0B = 9000000
+  Ambients = {"A"}
+  Threads = {"main"}
+  Resolution = "captured"
   Depth = 7
 SPECIFICATION RSpec
 INVARIANT Emit
